@@ -165,12 +165,12 @@ def check_written_text(obs, site, text, hdr, titles, imgs, removed_flag_written)
 
 def doc_A(seed):
     j = seed * 0.25
-    header = [("PixelSpacing", 1.35), ("Voltage", 300), ("ImageFile", "TS_01.mrc"), ("ImageSize", "4096 4096"), ("DataMode", 1), ("Offset", -12.5)]
+    header = [("PixelSpacing", 1.08254371), ("Voltage", 300), ("ImageFile", "TS_01.mrc"), ("ImageSize", "4096 4096"), ("DataMode", 1), ("Offset", -12.5)]
     titles = ["T = SerialEM: Digitized on EMBL Krios  21-Jan-21  10:00:00", "T =     Tilt axis angle = 86.1, binning = 1  spot = 8  camera = 0"]
-    angles = [3.0 + j, -3.00172, 9.5, -9.0]
+    angles = [3.0 + j, -0.00973425, 9.5, -9.0]
     imgs = []
     for z, a in enumerate(angles):
-        imgs.append({"ZValue": z, "TiltAngle": a, "StagePosition": f"12.{z} -45.6", "Magnification": 81000, "ExposureDose": 2.5 + z,
+        imgs.append({"ZValue": z, "TiltAngle": a, "StagePosition": f"12.{z} -45.6", "Magnification": 81000, "ExposureDose": 2.512345678 + z,
                      "PriorRecordDose": 5.0 * z, "DateTime": f"21-Jan-21  10:0{z}:12", "Defocus": -3.25 - z, "SubFramePath": f"X:\\frames\\TS_01_{z:03d}.tif"})
     return header, titles, imgs
 
@@ -314,13 +314,13 @@ class MdocSpec(BFSSpec):
 # =====================================================================================================
 # mdoc grammar: read -> write -> re-read over every document of a small grammar
 
-HDR_KINDS = {"int": 300, "float": 1.35, "neg": -12.5, "negint": -4, "text": "4096 4096", "path": "TS_01.mrc"}
-IMG_KINDS = {"int": 81000, "float": 2.125, "neg": -3.25, "text": "12.3 -45.6", "word": "abc", "intfloat": 3.0}
+HDR_KINDS = {"int": 300, "float": 1.08254371, "neg": -12.5, "negint": -4, "text": "4096 4096", "path": "TS_01.mrc"}
+IMG_KINDS = {"int": 81000, "float": 2.12345678, "neg": -3.25, "text": "12.3 -45.6", "word": "abc", "intfloat": 3.0}
 
 
 def grammar_docs(tier, seed):
     docs = []
-    angle_sets = {2: [(1.5, -1.5), (-20.0, 40.0)], 3: [(0.0, 3.0, -3.0), (10.5, -0.001, 60.0)], 4: [(-6.0, -3.0, 0.0, 3.0), (3.0, -3.0, 6.0, -6.0)]}
+    angle_sets = {2: [(1.5, -1.5), (-20.0, 40.00012345)], 3: [(0.0, 3.0, -3.0), (10.5, -0.00973425, 60.0)], 4: [(-6.0, -3.0, 0.0, 3.0), (3.0, -3.0, 6.0, -6.0)]}
     if tier == "thorough":
         angle_sets[1] = [(7.0,)]
         angle_sets[6] = [(0.0, 3.0, -3.0, 6.0, -6.0, 9.0)]
@@ -672,6 +672,70 @@ def exec_wedge(case, obs):
     obs.outcome = (len(df), tuple(df.columns), round(float(df["tilt_angle"].sum()), 3))
 
 
+def unsorted_wedge_cases(tier):
+    cases = []
+    for ntomo in ([1, 2, 3] if tier == "quick" else [1, 2, 3, 5]):
+        for ntilt in ([2, 3, 5] if tier == "quick" else [2, 3, 5, 41]):
+            for order in ("dose-symmetric", "descending", "ascending"):
+                for ctf in (False, True):
+                    cases.append((ntomo, ntilt, order, ctf))
+    return cases
+
+
+def exec_wedge_unsorted(case, obs):
+    """Tilt series in ACQUISITION order (array inputs are used as given): the STOPGAP list pairs the i-th tilt with the
+    i-th defocus / exposure, and the EM list holds min and max whatever the order."""
+    from cryocat import wedgeutils
+    from ..oracles import startok
+
+    ntomo, ntilt, order, ctf, seed = case
+    tomos = [12, 4, 9, 30, 1][:ntomo]
+    obs.nontrivial = ntilt >= 3 and order != "ascending"
+    blocks_rows = []
+    want_minmax = []
+    for k, t in enumerate(tomos):
+        asc = [round(-18.0 + 36.0 * i / max(1, ntilt - 1) + 0.5 * k + 0.01 * seed, 4) for i in range(ntilt)]
+        if order == "ascending":
+            tl = asc
+        elif order == "descending":
+            tl = asc[::-1]
+        else:  # dose-symmetric: start in the middle, alternate outwards
+            mid = ntilt // 2
+            idx = [mid]
+            for d in range(1, ntilt):
+                for sgn in (1, -1):
+                    j = mid + sgn * d
+                    if 0 <= j < ntilt and j not in idx:
+                        idx.append(j)
+            tl = [asc[j] for j in idx]
+        tl = np.array(tl)
+        dose = np.array([1.5 * (i + 1) for i in range(ntilt)])
+        defoc = np.column_stack([3.0 + 0.01 * np.arange(ntilt), 2.9 + 0.01 * np.arange(ntilt), np.zeros(ntilt), np.zeros(ntilt), 2.95 + 0.01 * np.arange(ntilt)])
+        kw = dict(tomo_id=t, tomo_dim=[100 + k, 90, 30], pixel_size=2.0, tlt_file=tl.copy(), z_shift=1.5 * k, dose_file=dose.copy())
+        if ctf:
+            kw["ctf_file"] = defoc.copy()
+        df = obs.lib("create_wedge_list_sg", wedgeutils.create_wedge_list_sg, **kw)
+        ok = len(df) == ntilt and np.allclose(df["tilt_angle"].to_numpy(dtype=float), tl) and np.allclose(df["exposure"].to_numpy(dtype=float), dose)
+        if ok and ctf:
+            ok = np.allclose(df["defocus"].to_numpy(dtype=float), defoc[:, 4])
+        obs.check(ok, "create_wedge_list_sg", "array-inputs-paired-in-given-order",
+                  lambda: f"tilts {df['tilt_angle'].tolist()} exposure {df['exposure'].tolist()} for inputs {tl.tolist()} {dose.tolist()}", cls=order)
+        for a in tl:
+            blocks_rows.append([str(t), "2.0", repr(float(a))])
+        want_minmax.append((float(t), float(np.float32(tl.min())), float(np.float32(tl.max()))))
+    text = startok.build([{"name": "data_stopgap_wedgelist", "labels": ["tomo_num", "pixelsize", "tilt_angle"], "rows": blocks_rows}], numbered=False)
+    with open("wl_unsorted.star", "w") as f:
+        f.write(text)
+    em_df = obs.lib("wedge_list_sg_to_em", wedgeutils.wedge_list_sg_to_em, os.path.abspath("wl_unsorted.star"), os.path.abspath("wl_unsorted.em"))
+    pe = emfmt.parse(os.path.abspath("wl_unsorted.em"))
+    arr = np.asarray(pe["flat"], dtype=float).reshape(-1, 3)
+    obs.check(sorted(map(tuple, arr.tolist())) == sorted(want_minmax), "wedge_list_sg_to_em", "em-min-max-per-tomogram",
+              lambda: f"{arr.tolist()} vs {sorted(want_minmax)}", cls="tilts-" + order)
+    got_df = sorted((float(r[0]), float(np.float32(r[1])), float(np.float32(r[2]))) for r in em_df.to_numpy(dtype=float))
+    obs.check(got_df == sorted(want_minmax), "wedge_list_sg_to_em", "table-min-max-per-tomogram", lambda: f"{got_df} vs {sorted(want_minmax)}", cls="tilts-" + order)
+    obs.outcome = tuple(map(tuple, arr.round(3).tolist()))
+
+
 def families(tier, seed):
     depth = 4 if tier == "quick" else 6
     fams = [
@@ -686,5 +750,8 @@ def families(tier, seed):
         Family("wedge-lists", Mapped(Listed(wedge_cases(tier)), lambda c: c + (seed,)), exec_wedge,
                expect=("table-one-row-per-tilt", "file-one-row-per-tilt", "em-min-max-per-tomogram", "table-field-z_shift", "file-field-defocus"),
                describe=lambda c: {"tomograms": c[0], "tilts": c[1], "dims": c[2], "z_shift": c[3], "ctf": c[4], "dose": c[5]}),
+        Family("wedge-lists-acquisition-order", Mapped(Listed(unsorted_wedge_cases(tier)), lambda c: c + (seed,)), exec_wedge_unsorted,
+               expect=("array-inputs-paired-in-given-order", "em-min-max-per-tomogram", "table-min-max-per-tomogram"),
+               describe=lambda c: {"tomograms": c[0], "tilts": c[1], "tilt_order": c[2], "ctf": c[3]}),
     ]
     return fams
